@@ -394,6 +394,7 @@ pub fn run(prop: &str, tier: &str, seed: u64) -> Report {
     let cases = build_cases(prop, tier, seed, &pools);
     let r = parallel(cases.len(), util::threads(), |i, r| run_case(&cases[i], r, prop));
     total.merge(r);
+    total.merge(clock_progress(prop, &pools));
     for &p in &ALL {
         let (acc, rej) = if prop == "C11" { ("strict-future", "strict-past") } else { ("strict-past", "strict-future") };
         total.require(&format!("{} accepted[{}]", p.name(), acc), 50);
@@ -401,6 +402,85 @@ pub fn run(prop: &str, tier: &str, seed: u64) -> Report {
         total.require(&format!("{} accepted[absent]", p.name()), 1);
         total.require(&format!("{} accepted[null]", p.name()), 1);
     }
+    total
+}
+
+/// Time must be read at EVERY parse: one parser object (and a fresh one) sees a claim cross "now" while it lives.
+/// exp = now+1.5 s: parsed at once (no verdict: a stalled machine may already be past it), then again after 2.6 s -> must be
+/// rejected.  nbf = now+1.5 s: rejected-or-no-verdict at once, after 2.6 s it must be accepted.
+fn clock_progress(prop: &str, pools: &Pools) -> Report {
+    let is_exp = prop == "C11";
+    let mut total = Report::new();
+    std::thread::scope(|s| {
+        let mut handles = Vec::new();
+        for &p in &ALL {
+            for (batteries_new, name) in [(false, "same parser object"), (true, "fresh parser per parse")] {
+                let key = pools.key(p, 0);
+                handles.push(s.spawn(move || {
+                    let mut r = Report::new();
+                    let now_ns = util::now_unix_nanos();
+                    let t = now_ns + 1_500_000_000;
+                    let text = render((t / 1_000_000_000) as i64, (t % 1_000_000_000) as u32, 90, 9, Style::Strict);
+                    let payload = if is_exp { json!({"exp": text, "n": 1}) } else { json!({"nbf": text, "n": 1}) }.to_string();
+                    let mut rng = Rng::new(now_ns as u64, "c11-clock", p as u64);
+                    let token = match core_seal(p, &key, &rng.bytes(32), &payload, None, None).0 {
+                        Out::Ok(t) => t,
+                        _ => {
+                            r.inconclusive.push(format!("clock-progress: could not seal for {}", p.name()));
+                            return r;
+                        }
+                    };
+                    let cfg = ParserCfg { default_parser: true, ..Default::default() };
+                    let (first, second) = if !batteries_new {
+                        let steps = vec![PStep::Parse { token: token.clone(), key: 0 }, PStep::SleepMs(2600), PStep::Parse { token: token.clone(), key: 0 }];
+                        let outs = session(p, true, &[key.clone()], &cfg, &steps);
+                        if outs.len() != 2 {
+                            r.inconclusive.push(format!("clock-progress session on {} returned {} outcomes", p.name(), outs.len()));
+                            return r;
+                        }
+                        (outs[0].clone(), outs[1].clone())
+                    } else {
+                        let a = batteries_open(p, &key, &token, &cfg).0;
+                        std::thread::sleep(std::time::Duration::from_millis(2600));
+                        (a, batteries_open(p, &key, &token, &cfg).0)
+                    };
+                    r.evaluations += 2;
+                    let replay = json!({"cmd": prop, "note": "clock-progress case: re-run the check", "protocol": p.name(), "mode": name});
+                    let elapsed = util::now_unix_nanos() - now_ns;
+                    if elapsed < 2_000_000_000 {
+                        r.inconclusive.push("clock-progress: the sleep returned early".into());
+                        return r;
+                    }
+                    // after the sleep the instant is at least 0.5 s in the past
+                    match (&second, is_exp) {
+                        (Out::Ok(_), true) => r.violation(
+                            format!("C11 expired-token-accepted-after-clock-progress {}", name.replace(' ', "-")),
+                            format!("{} ({}): a token whose exp {} lay 1.5 s in the future was parsed, {} ms later (exp now in the past) it was STILL ACCEPTED; first parse: {}", p.name(), name, text, elapsed / 1_000_000, first.brief()),
+                            replay,
+                        ),
+                        (Out::Err(e), false) => r.violation(
+                            format!("C12 token-still-rejected-after-clock-progress {} err={}", name.replace(' ', "-"), e),
+                            format!("{} ({}): a token whose nbf {} lay 1.5 s in the future was parsed, {} ms later (nbf now in the past) it was STILL REJECTED ({}); first parse: {}", p.name(), name, text, elapsed / 1_000_000, e, first.brief()),
+                            replay,
+                        ),
+                        (Out::Panic(l), _) => r.violation(format!("{} panic clock-progress", prop), format!("{}: panic {}", p.name(), l), replay),
+                        _ => {
+                            r.count(&format!("{} clock-progress [{}]: verdict follows the clock", p.name(), name));
+                            r.distinct(format!("{}|clock|{}|{}", p.name(), name, first.class()));
+                            r.see("clock-progress first-parse outcomes (no verdict)", &format!("{} {}", name, first.class()));
+                        }
+                    }
+                    r
+                }));
+            }
+        }
+        for h in handles {
+            match h.join() {
+                Ok(r) => total.merge(r),
+                Err(_) => total.inconclusive.push("clock-progress worker died".into()),
+            }
+        }
+    });
     total
 }
 
@@ -413,4 +493,4 @@ pub fn replay(prop: &str, case: &Value) -> Report {
     r
 }
 
-pub const RULE: &str = "payloads {\"exp\"|\"nbf\": value} are crafted at the core layer and parsed with PasetoParser::default(). Values: 13 instants (now-2s, -1min, -1h, -1d, -1y, 2000-01-01, 1971; now+60s, +1h, +1d, +1y, 2999, 9000-01-01) rendered by the harness's own calendar arithmetic with EVERY UTC offset -23:59..+23:59 x 0..9 fractional digits (strict grammar), 'Z', '-00:00' and lenient variants (space, 't', 'z') — full space on v4.local (thorough: all four local protocols), 300 (thorough 5000) sampled renderings on each other protocol; a catalogue of 40 non-timestamp values (numbers, booleans, arrays, objects, empty string, near-miss date strings) plus random text; null; absent; C12 additionally the 3x3 grid of (exp, nbf) in {past, future, absent} x 3 offsets. Oracle: instant known by construction; strict renderings decide both ways, lenient renderings must merely never be accepted when out of window. distinct_nontrivial = distinct (protocol, outcome, class, instant, offset, fraction length, style) tuples";
+pub const RULE: &str = "payloads {\"exp\"|\"nbf\": value} are crafted at the core layer and parsed with PasetoParser::default(). Values: 13 instants (now-2s, -1min, -1h, -1d, -1y, 2000-01-01, 1971; now+60s, +1h, +1d, +1y, 2999, 9000-01-01) rendered by the harness's own calendar arithmetic with EVERY UTC offset -23:59..+23:59 x 0..9 fractional digits (strict grammar), 'Z', '-00:00' and lenient variants (space, 't', 'z') — full space on v4.local (thorough: all four local protocols), 300 (thorough 5000) sampled renderings on each other protocol; a catalogue of 40 non-timestamp values (numbers, booleans, arrays, objects, empty string, near-miss date strings) plus random text; null; absent; C12 additionally the 3x3 grid of (exp, nbf) in {past, future, absent} x 3 offsets. Plus clock-progress histories on all 8 protocols: a claim 1.5 s in the future is parsed, 2.6 s pass, and the SAME parser object (and a fresh one) must now give the opposite answer. Oracle: instant known by construction; strict renderings decide both ways, lenient renderings must merely never be accepted when out of window. distinct_nontrivial = distinct (protocol, outcome, class, instant, offset, fraction length, style) tuples";
